@@ -66,9 +66,16 @@ def run_io(doc, fmt, voc):
         except Exception as e:
             texts["string"] = None
             out["text"]["string_exc"] = type(e).__name__
-        for kind in ("text", "binary", "path", "pathover", "textfile"):
+        for kind in ("text", "binary", "path", "pathover", "textfile", "ntf"):
             try:
-                if kind == "textfile":
+                if kind == "ntf":
+                    # a file object that is not an io.IOBase (tempfile's wrapper): a stream all the same
+                    with tempfile.NamedTemporaryFile(dir=root) as fh:
+                        doc.serialize(fh, format=fmt)
+                        fh.flush()
+                        fh.seek(0)
+                        texts[kind] = fh.read().decode("utf-8")
+                elif kind == "textfile":
                     # a file-backed TEXT stream whose encoding is not UTF-8: the stream encodes, the
                     # library writes text
                     p = os.path.join(root, "t16." + fmt)
@@ -99,7 +106,7 @@ def run_io(doc, fmt, voc):
                         texts[kind] = fh.read().decode("utf-8")
             except Exception as e:
                 texts[kind] = None
-        for kind in ("text", "binary", "path", "pathover", "textfile"):
+        for kind in ("text", "binary", "path", "pathover", "textfile", "ntf"):
             out["text"][kind] = same_text(fmt, texts.get("string"), texts.get(kind))
         if fmt == "provn":
             return out
@@ -120,9 +127,19 @@ def run_io(doc, fmt, voc):
         def sources():
             t16 = io.open(tpath, "r", encoding="utf-16", newline="")
             opened.append(t16)
+            ntf = tempfile.NamedTemporaryFile(dir=root)
+            ntf.write(data)
+            ntf.flush()
+            ntf.seek(0)
+            opened.append(ntf)
             return {"content_str": dict(content=text), "content_bytes": dict(content=data),
                     "text": dict(source=io.StringIO(text)), "binary": dict(source=io.BytesIO(data)),
-                    "path": dict(source=path), "pathurl": dict(source=hpath), "textfile": dict(source=t16)}
+                    "path": dict(source=path), "pathurl": dict(source=hpath), "textfile": dict(source=t16),
+                    "ntf": dict(source=ntf),
+                    # what a BINARY destination received (for XML: UTF-8 with the characters themselves,
+                    # where the returned string has character references), offered as text and as bytes
+                    "bintext": dict(source=io.StringIO(texts.get("binary") or text)),
+                    "bincontent": dict(content=(texts.get("binary") or text).encode("utf-8"))}
         for kind, kw in sources().items():
             try:
                 out["doc"][kind] = doc_digest(ProvDocument.deserialize(format=fmt, **kw), voc, setlike)
